@@ -6,8 +6,14 @@ LEVEL = 'proof'
 
 
 def run(rep):
-    enginep.engine_deductive(rep, ['engine.YP.evaluate_bounded'], heap_lemmas=False)
+    # "all query variables are unbound again" when the search is cut short by the depth error: the error unwinds the generator
+    # frames, so this clause rests on the finalisation contracts of C03 (every unification generator resets exactly its own cells on
+    # resume, close and throw; every engine generator owns and finalises its iterators; only Variable.unify writes a binding cell)
+    from .common import UNIFY_FAMILY
+    fw.deductive(rep, [t for t in UNIFY_FAMILY if 'get_value' not in t], ['engine_terms'], ['terms.smt2'], timeout=25 if rep.tier == 'quick' else 60)
+    enginep.engine_deductive(rep, enginep.GEN_FUNS + enginep.ITER_CLASSES + ['engine.Answer.match', 'engine.YP.evaluate_bounded'], heap_lemmas=False)
     from . import syntactic
+    syntactic.no_direct_cell_writes(rep)
     syntactic.caught_exceptions_do_not_escape(rep)
     q = rep.tier == 'quick'
     fw.standin(rep, 's_c17.py', ['run', rep.seed, 1000 if q else 6000],
